@@ -12,7 +12,7 @@ TRUSTED = [
 ASSUMPTIONS = ['NOT APPLICABLE PART: S3/B2 server-side semantics (overwrite, hide markers, listing consistency) and cross-adapter equivalence over histories are properties of external services: assumed, not decided', 'the page functions (_list_objects / _list_file_names) return what the service answers; truncated S3 pages carry a NextContinuationToken', 'os.replace atomic, unlink(missing_ok=True) idempotent, os.scandir/os.path.relpath as documented']
 MANIFEST = {
     'text': 'Deductive proof of the contract-shaped fragments: the S3 and B2 listing generators yield exactly the keys of page 1, 2, ... requesting each page with the previous page\'s cursor and the caller\'s prefix and stopping on the last page; B2 delete swallows only the two "already gone" answers; the local adapter publishes by atomic replace, never lists its temporary files and addresses objects relative to the repository path.',
-    'note': 'Trusted: vf engine, SMT solvers; OS and web services assumed. The listing/spelling claim for the local backend is decided only by the bounded stand-in C13.local.list_names; open known finding D10 (names ending in .tmp are never listed).',
+    'note': 'Trusted: vf engine, SMT solvers; OS and web services assumed. The listing/spelling claim for the local backend is decided only by the bounded stand-in C13.local.list_names; the behaviour of the three real adapters as ONE object store over histories is explored by the bounded stand-in C13.stores (in-memory S3/B2 services, scratch directory); open known finding D10 (names ending in .tmp are never listed).',
     'technique': 'contract-based deductive verification: sidecar contracts + loop invariants on the real functions, VCs by symbolic execution of the AST, discharged by z3/cvc5',
     'design_ref': 'DESIGN.md 6/C13',
 }
